@@ -162,7 +162,9 @@ def gen_sampler(rng):
             cfg['sampler'] = {'__obj__': {'cls': 'ComplexSector', 'cfg': {'modulus': [1, 2], 'argument': [0, 1]}}}
         spec['cfg'] = cfg
     elif kind == 'SquareMatrices':
-        spec['dimension'] = rng.randint(2, 5)
+        # mostly small; sometimes large enough that a product of n entries below 1 is tiny
+        # without the matrix being anywhere near singular
+        spec['dimension'] = rng.randint(2, 5) if rng.random() < 0.85 else rng.choice([6, 8, 12, 16, 20])
         spec['symmetry'] = rng.choice(SYMS)
         spec['traceless'] = rng.random() < 0.4
         spec['determinant'] = rng.choice([None, None, 0, 1])
@@ -395,6 +397,13 @@ class Run(object):
         scale = max(1.0, nrm ** n)
         if sp['determinant'] == 0 and abs(det) > 1e-9 * scale:
             return 'determinant %r, requested 0 (norm %r)' % (det, nrm)
+        if sp['determinant'] == 0:
+            # norm**n is a generous scale in large dimensions; singular "to numerical precision"
+            # also means a (relatively) vanishing smallest singular value
+            sv = np.linalg.svd(a, compute_uv=False)
+            if sv[0] > 0 and sv[-1] > 1e-6 * sv[0]:
+                return ('determinant 0 requested, but the matrix is well conditioned: singular values '
+                        'from %r down to %r (determinant %r)' % (float(sv[0]), float(sv[-1]), det))
         if sp['determinant'] == 1 and abs(det - 1) > 1e-9 * scale:
             return 'determinant %r, requested 1 (norm %r)' % (det, nrm)
         return None
